@@ -215,8 +215,19 @@ pub fn random_valid_cmdline(st: Option<&Stream>, rng: &mut Rng, spec_fields: &mu
             _ => Filter::None,
         },
     };
-    match rng.below(10) {
-        0..=5 => {
+    match rng.below(21) {
+        20 => {
+            // no subcommand, no output: the input is only read (and counted)
+            label = "no command".to_string();
+            parts.extend(filter.args());
+            if rng.chance(1, 3) {
+                let n = rng.range(1, 255);
+                parts.extend(s(&["-E", &n.to_string()]));
+                spec_fields.exit_code = Some(n as i32);
+            }
+            return (parts, label);
+        }
+        0..=11 => {
             let m = rng.usize_below(5);
             parts.extend(s(CHECK_MODES[m]));
             label = CHECK_MODES[m].join(" ");
@@ -229,7 +240,7 @@ pub fn random_valid_cmdline(st: Option<&Stream>, rng: &mut Rng, spec_fields: &mu
                 parts.extend(s(&["-c", "@CHECKS@"]));
             }
         }
-        6..=7 => {
+        12..=15 => {
             let m = rng.usize_below(3);
             parts.extend(s(VIEW_MODES[m]));
             label = VIEW_MODES[m].join(" ");
@@ -327,6 +338,7 @@ impl Scenario for Chaos {
         let mut rng = Rng::new(seed);
         let mut extras = CmdExtras { stats_ext: "json".into(), ..Default::default() };
         let kind = rng.below(11);
+        let mut many_batches = false;
         let mut label;
         let (input, st): (Vec<u8>, Option<Stream>) = match kind {
             10 if !crate::corpus::corpus().is_empty() => {
@@ -390,7 +402,17 @@ impl Scenario for Chaos {
             }
             _ => {
                 let stave = rng.chance(1, 3);
-                let cfg = GenCfg::swarm(&mut rng, stave);
+                let mut cfg = GenCfg::swarm(&mut rng, stave);
+                // 1 in 8: several reader batches (with the reader queue capped to 1..2 below), so that the
+                // paths with a full inter-thread queue run
+                many_batches = !stave && rng.chance(1, 8);
+                if many_batches {
+                    cfg.n_links = rng.range(1, 3) as usize;
+                    cfg.hbfs = (60, 160);
+                    cfg.data_pages = (1, 2);
+                    cfg.triggers = (1, 2);
+                    cfg.data_words = (0, 3);
+                }
                 let mut st = gen_conforming(&cfg, &mut rng);
                 let k = rng.range(1, 4);
                 label = "corrupted".to_string();
@@ -420,6 +442,13 @@ impl Scenario for Chaos {
         }
         if rng.chance(1, 10) && !spec.input.is_empty() {
             spec.io.eio_at = Some(rng.below(spec.input.len() as u64 + 1));
+        }
+        if many_batches {
+            spec.cap_limit = Some(*rng.pick(&[1usize, 1, 2]));
+            if spec.policy == crate::exec::PolicySpec::Canonical {
+                spec.policy = crate::exec::PolicySpec::Random { p_permille: 200 };
+                spec.sched_seed = rng.next_u64();
+            }
         }
         spec.timeout_ms = 30_000;
         let mut allowed = vec![0, 1];
